@@ -214,24 +214,18 @@ fn removed_parentheses_comments(
 }
 
 /// Special case: if we have `- -foo`, or `-(-foo)` where we have already removed the parentheses, then
-/// it will lead to `--foo`, which is invalid syntax. We must explicitly add/keep the parentheses `-(-foo)`.
+/// it will lead to `--foo`, which is invalid syntax. We must explicitly add the parentheses `-(-foo)`.
 /// Takes the formatted operand of `unop`, and wraps it in parentheses if required.
+/// If the operand kept its parentheses [e.g. `-(-foo())`], nothing needs to be added.
 fn parenthesise_nested_unary_minus(unop: &UnOp, expression: Expression) -> Expression {
     if let UnOp::Minus(_) = unop {
-        let require_parentheses = match expression {
+        let require_parentheses = matches!(
+            expression,
             Expression::UnaryOperator {
                 unop: UnOp::Minus(_),
                 ..
-            } => true,
-            Expression::Parentheses { ref expression, .. } => matches!(
-                &**expression,
-                Expression::UnaryOperator {
-                    unop: UnOp::Minus(_),
-                    ..
-                }
-            ),
-            _ => false,
-        };
+            }
+        );
 
         if require_parentheses {
             let (new_expression, trailing_comments) =
@@ -1295,14 +1289,7 @@ fn hang_binop_expression(
                     };
 
                     let rhs = if contains_comments(&*rhs) {
-                        hang_binop_expression(
-                            ctx,
-                            *rhs,
-                            binop,
-                            shape,
-                            lhs_range,
-                            rhs_context,
-                        )
+                        hang_binop_expression(ctx, *rhs, binop, shape, lhs_range, rhs_context)
                     } else {
                         format_expression_internal(
                             ctx,
